@@ -158,7 +158,7 @@ func VH_C17_digits(form, shard, of int) {
 }
 
 var vMantissas = []string{"1", "12", "9", "100", "1_5", "123456789", "9223372036854775807", "92233720368547758", "10", "010", "0_10", "09", "0012", "0100", "0", "00", "0x1"[:1] + "8"}
-var vExps = []string{"0", "1", "2", "3", "17", "18", "19", "-1", "-2", "00", "30"}
+var vExps = []string{"0", "1", "2", "3", "17", "18", "19", "-1", "-2", "00", "30", "1001", "-1001"}
 
 // VH_C17_expint: mantissa and exponent are solver choices.
 func VH_C17_expint() {
@@ -189,11 +189,12 @@ func VH_C17_expint() {
 		rt.Assert(!ok, "an exponent-form integer that does not fit in 64 bits must be rejected")
 		return
 	}
-	rt.Assert(ok, "an exponent-form integer must parse")
-	if exact {
-		il, isInt := n.(*ast.IntLiteral)
-		rt.Assert(isInt && il.Value == want, "an exponent-form literal denoting an integer has exactly its mathematical value")
+	if !exact {
+		return // the literal does not denote an integer: the statement is silent (the implementation truncates or rejects)
 	}
+	rt.Assert(ok, "an exponent-form integer must parse")
+	il, isInt := n.(*ast.IntLiteral)
+	rt.Assert(isInt && il.Value == want, "an exponent-form literal denoting an integer has exactly its mathematical value")
 }
 
 var vStrBodies = []struct {
@@ -301,4 +302,35 @@ func VH_C17_strctx() {
 		_, err2 := Parse(NewReader(strings.NewReader(t2), "h"))
 		rt.Assert(err2 == nil, "a quoted string followed by other tokens on the same line must parse")
 	}
+}
+
+// ---------------------------------------------------------------- names in context
+//
+// A name that merely begins with a reserved word works wherever a name may stand, also as
+// the first token of a line (after a line break, blank or comment lines, indentation): the
+// program must parse exactly like the same program written with a neutral name.
+
+var vNameHeads = []string{"if", "else", "return", "raise", "yield", "defer"}
+var vNameTails = []string{"where", "_x", "y1", "s?", "ing!", "If"}
+var vNameCtx = []string{
+	"NAME := 5\nNAME",
+	"x := 1\nNAME := 5\nNAME",
+	"x := 1\n  # c\n\n  NAME := 5\n  NAME",
+	"{|| 1\nNAME := 5\nNAME}()",
+	"{a: 1,\nNAME: 5}.NAME",
+	"\"first\" if false\nNAME",
+	"[1,\nNAME]",
+	"f(1,\nNAME)",
+}
+
+func VH_C17_namectx() {
+	name := vNameHeads[rt.Choice(len(vNameHeads))] + vNameTails[rt.Choice(len(vNameTails))]
+	ctx := vNameCtx[rt.Choice(len(vNameCtx))]
+	text := strings.Replace(ctx, "NAME", name, -1)
+	rt.Note(text)
+	want, ok0 := vParseText(strings.Replace(ctx, "NAME", "zzname", -1))
+	rt.Assert(ok0, "the context must parse with a neutral name")
+	got, ok := vParseText(text)
+	rt.Assert(ok, "a name that begins with a reserved word works wherever a name may stand")
+	rt.Assert(strings.Replace(got, name, "zzname", -1) == want, "a name that begins with a reserved word is one name, wherever it stands")
 }
